@@ -8,7 +8,7 @@ This file contains the main Program class for the CoCo Assembler.
 
 from cocoasm.exceptions import TranslationError, ValueTypeError
 from cocoasm.statement import Statement
-from cocoasm.values import AddressValue, NoneValue
+from cocoasm.values import AddressValue, NoneValue, NumericValue
 from cocoasm.virtualfiles.source_file import SourceFile
 
 # C L A S S E S ###############################################################
@@ -99,6 +99,57 @@ class Program(object):
             else:
                 self.symbol_table[label] = AddressValue(index)
 
+    def resolve_defined_symbols(self):
+        """
+        Resolves the EQU symbols that are defined in terms of other EQU symbols, in
+        whatever order they appear. A definition that never reduces to a constant
+        (for example one that refers to a label) raises a TranslationError.
+        """
+        pending = [
+            statement for statement in self.statements
+            if statement.instruction.is_pseudo_define and statement.label and not statement.operand.value.is_numeric()
+        ]
+        while pending:
+            unresolved = []
+            for statement in pending:
+                constant = self.constant_value(statement.operand.value, statement)
+                if constant is None:
+                    unresolved.append(statement)
+                else:
+                    statement.operand.value = constant
+                    self.symbol_table[statement.label] = constant
+            if len(unresolved) == len(pending):
+                raise TranslationError(
+                    "[{}] is not a constant value".format(unresolved[0].operand.operand_string), unresolved[0]
+                )
+            pending = unresolved
+
+    def constant_value(self, value, statement):
+        """
+        Returns the numeric value of a symbol or a two-term expression whose symbols are
+        all constants that are already known, or None if it cannot be calculated yet.
+        """
+        if value.is_numeric():
+            return value
+        if value.is_symbol():
+            if value.ascii() not in self.symbol_table:
+                raise TranslationError("[{}] not in symbol table".format(value.ascii()), statement)
+            constant = self.symbol_table[value.ascii()]
+            return constant if constant.is_numeric() else None
+        if value.is_expression():
+            left = self.constant_value(value.left, statement)
+            right = self.constant_value(value.right, statement)
+            if left is None or right is None:
+                return None
+            try:
+                return NumericValue(value.calculate(
+                    -left.int if left.is_negative() else left.int,
+                    -right.int if right.is_negative() else right.int,
+                ))
+            except (ValueError, ValueTypeError) as error:
+                raise TranslationError(str(error), statement)
+        return None
+
     def translate_statements(self):
         """
         Translates all the parsed statements into their respective
@@ -107,6 +158,7 @@ class Program(object):
         self.statements = self.process_mnemonics(self.statements)
         for index, statement in enumerate(self.statements):
             self.save_symbol(index, statement)
+        self.resolve_defined_symbols()
 
         for index, statement in enumerate(self.statements):
             statement.resolve_symbols(self.symbol_table)
